@@ -59,6 +59,9 @@ type target struct {
 	Fall     string            // Lean term for falling off the end / a bare `return` (default `()`, or the receiver)
 	Imports  []string          // extra imports of the generated file of this property
 	Lit      int               // > 0: translate the Lit-th function literal (closure) inside the function instead
+	Calls    map[string]string // calls with an effect AND a result: callee text -> Lean `f fx args..` : (result, fx')
+	RetFmt   string            // how a returned value is packed, e.g. "(i, fx, %s)" (also used for falling off the end)
+	SkipDeferLit bool          // `defer func(){...}()` closures are dropped (logging only)
 }
 
 type tr struct {
@@ -67,6 +70,8 @@ type tr struct {
 	errs     []string
 	loopN    int
 	loopID   map[token.Pos]int // 3-clause / condition loops numbered in source order
+	defers   []string          // deferred effect calls as `let` lines, in source order
+	shadowErr string           // set by checkShadow: the definition is then emitted as a translate_error
 	retWrap  func(string) string // how a `return e` is rendered in the current context
 	funcRet  func(string) string // how a `return e` is rendered at function level
 	loopVars []string            // non-nil inside a loop body: state tuple of the loop
@@ -314,6 +319,10 @@ func (x *tr) assigned(stmts []ast.Stmt) []string {
 			}
 		case *ast.IncDecStmt:
 			note(v.X)
+		case *ast.CallExpr:
+			if _, ok := x.t.Calls[x.src(v.Fun)]; ok {
+				set["fx"] = true
+			}
 		case *ast.DeclStmt:
 			if gd, ok := v.Decl.(*ast.GenDecl); ok {
 				for _, sp := range gd.Specs {
@@ -356,6 +365,28 @@ func (x *tr) assigned(stmts []ast.Stmt) []string {
 	}
 	sort.Strings(out)
 	return out
+}
+
+// containsJump: a return, break, continue or panic anywhere inside (closures excluded)
+func containsJump(stmts []ast.Stmt) bool {
+	found := false
+	for _, s := range stmts {
+		ast.Inspect(s, func(n ast.Node) bool {
+			switch v := n.(type) {
+			case *ast.FuncLit:
+				return false
+			case *ast.ReturnStmt, *ast.BranchStmt, *ast.ForStmt, *ast.RangeStmt:
+				// (a loop is translated with early-exit arms: it cannot sit inside a joined branch)
+				found = true
+			case *ast.CallExpr:
+				if id, ok := v.Fun.(*ast.Ident); ok && id.Name == "panic" {
+					found = true
+				}
+			}
+			return !found
+		})
+	}
+	return found
 }
 
 func terminates(stmts []ast.Stmt) bool {
@@ -403,6 +434,20 @@ func (x *tr) stmts(list []ast.Stmt, fall string, ind string) string {
 		if x.skipped(v.Call) {
 			return next()
 		}
+		if _, isLit := v.Call.Fun.(*ast.FuncLit); isLit && x.t.SkipDeferLit {
+			return next()
+		}
+		if l := x.effectLet(v.Call); l != "" {
+			if x.inLoop {
+				return x.errf("defer inside a loop")
+			}
+			// runs at every return that follows (reverse order of registration)
+			saved := x.defers
+			x.defers = append(append([]string{}, x.defers...), l)
+			out := next()
+			x.defers = saved
+			return out
+		}
 		return x.errf("defer %s", x.src(v.Call))
 	case *ast.ExprStmt:
 		if c, ok := v.X.(*ast.CallExpr); ok {
@@ -415,16 +460,11 @@ func (x *tr) stmts(list []ast.Stmt, fall string, ind string) string {
 			if x.skipped(c) {
 				return next()
 			}
-			if fn, ok := x.t.Effects[x.src(c.Fun)]; ok {
-				tv := "fx"
-				if i := strings.Index(fn, ":="); i > 0 {
-					tv, fn = fn[:i], fn[i+2:]
-				}
-				args := []string{tv}
-				for _, a := range c.Args {
-					args = append(args, x.expr(a))
-				}
-				return "let " + tv + " := (" + fn + " " + strings.Join(args, " ") + ")\n" + ind + next()
+			if l := x.effectLet(c); l != "" {
+				return l + "\n" + ind + next()
+			}
+			if cc, ok := x.isCall(c); ok {
+				return x.callLet("_", cc) + "\n" + ind + next()
 			}
 		}
 		return x.errf("statement %s", x.src(v))
@@ -451,6 +491,8 @@ func (x *tr) stmts(list []ast.Stmt, fall string, ind string) string {
 						}
 					case "bool":
 						val = "false"
+					case "error":
+						val = "(GoLib.nil : Option String)"
 					}
 				}
 				out += "let " + x.ident(n.Name) + " := " + val + "\n" + ind
@@ -458,6 +500,14 @@ func (x *tr) stmts(list []ast.Stmt, fall string, ind string) string {
 		}
 		return out + next()
 	case *ast.AssignStmt:
+		if len(v.Lhs) == 1 && len(v.Rhs) == 1 {
+			if cc, ok := x.isCall(v.Rhs[0]); ok {
+				if id, ok := v.Lhs[0].(*ast.Ident); ok {
+					return x.callLet(x.pat(id.Name), cc) + "\n" + ind + next()
+				}
+				return x.errf("assignment %s", x.src(v))
+			}
+		}
 		if len(v.Lhs) == 2 && len(v.Rhs) == 1 {
 			// comma-ok form / two-result call: the right-hand side is a pair
 			a, ok1 := v.Lhs[0].(*ast.Ident)
@@ -492,7 +542,17 @@ func (x *tr) stmts(list []ast.Stmt, fall string, ind string) string {
 	case *ast.ReturnStmt:
 		parts := make([]string, len(v.Results))
 		for i, r := range v.Results {
+			if _, ok := x.isCall(r); ok && len(v.Results) == 1 {
+				continue
+			}
 			parts[i] = x.expr(r)
+		}
+		pre := ""
+		if len(v.Results) == 1 {
+			if cc, ok := x.isCall(v.Results[0]); ok {
+				pre = x.callLet("r''", cc) + "\n" + ind
+				parts[0] = "r''"
+			}
 		}
 		val := "()"
 		if len(parts) == 0 && x.t.Fall != "" {
@@ -503,7 +563,10 @@ func (x *tr) stmts(list []ast.Stmt, fall string, ind string) string {
 		} else if len(parts) > 1 {
 			val = "(" + strings.Join(parts, ", ") + ")"
 		}
-		return x.retWrap(val)
+		for k := len(x.defers) - 1; k >= 0; k-- {
+			pre += x.defers[k] + "\n" + ind
+		}
+		return pre + x.retWrap(val)
 	case *ast.BranchStmt:
 		if !x.inLoop || v.Label != nil {
 			return x.errf("branch %s", x.src(v))
@@ -528,6 +591,15 @@ func (x *tr) stmts(list []ast.Stmt, fall string, ind string) string {
 			els = e.List
 		case *ast.IfStmt:
 			els = []ast.Stmt{e}
+		}
+		if len(rest) > 0 && !containsJump(v.Body.List) && !containsJump(els) {
+			// no way out of the branches but their end: join instead of duplicating the continuation
+			vars := x.assigned(append(append([]ast.Stmt{}, v.Body.List...), els...))
+			tup := tuple(vars)
+			ind2 := ind + "  "
+			thenT := x.stmts(v.Body.List, tup, ind2)
+			elseT := x.stmts(els, tup, ind2)
+			return pre + "let " + tup + " := (if " + x.expr(v.Cond) + " then\n" + ind2 + thenT + "\n" + ind + "else\n" + ind2 + elseT + ")\n" + ind + next()
 		}
 		x.checkShadow(v.Body.List, rest)
 		x.checkShadow(els, rest)
@@ -594,8 +666,8 @@ func (x *tr) stmts(list []ast.Stmt, fall string, ind string) string {
 	return x.errf("statement %T", s)
 }
 
-// checkShadow refuses a branch that re-declares (:=) a name the continuation reads: the duplicated
-// continuation would see the inner variable.
+// checkShadow refuses a branch that re-declares (:=) a name the continuation reads FREE (i.e. before the
+// continuation declares it again in an enclosing scope): the duplicated continuation would see the inner variable.
 func (x *tr) checkShadow(branch, rest []ast.Stmt) {
 	decl := map[string]bool{}
 	for _, s := range branch {
@@ -610,14 +682,134 @@ func (x *tr) checkShadow(branch, rest []ast.Stmt) {
 	if len(decl) == 0 || terminates(branch) {
 		return
 	}
-	for _, s := range rest {
-		ast.Inspect(s, func(n ast.Node) bool {
-			if id, ok := n.(*ast.Ident); ok && decl[id.Name] {
-				x.errf("branch declares %s which the continuation also names", id.Name)
-			}
-			return true
-		})
+	for name := range decl {
+		if usesFree(rest, name) {
+			x.shadowErr = fmt.Sprintf("branch declares %s which the continuation also reads", name)
+			x.errs = append(x.errs, x.shadowErr)
+		}
 	}
+}
+
+// usesFree: does the statement list mention `name` before (re)declaring it in the same or an enclosing block?
+func usesFree(stmts []ast.Stmt, name string) bool {
+	declares := func(s ast.Stmt) bool { // a declaration of name at this block level
+		switch v := s.(type) {
+		case *ast.AssignStmt:
+			if v.Tok == token.DEFINE {
+				for _, l := range v.Lhs {
+					if id, ok := l.(*ast.Ident); ok && id.Name == name {
+						return true
+					}
+				}
+			}
+		case *ast.DeclStmt:
+			if gd, ok := v.Decl.(*ast.GenDecl); ok {
+				for _, sp := range gd.Specs {
+					if vs, ok := sp.(*ast.ValueSpec); ok {
+						for _, n := range vs.Names {
+							if n.Name == name {
+								return true
+							}
+						}
+					}
+				}
+			}
+		}
+		return false
+	}
+	mentions := func(n ast.Node) bool {
+		found := false
+		ast.Inspect(n, func(m ast.Node) bool {
+			if id, ok := m.(*ast.Ident); ok && id.Name == name {
+				found = true
+			}
+			return !found
+		})
+		return found
+	}
+	for _, s := range stmts {
+		if declares(s) {
+			// right-hand sides are evaluated before the declaration takes effect
+			if a, ok := s.(*ast.AssignStmt); ok {
+				for _, r := range a.Rhs {
+					if mentions(r) {
+						return true
+					}
+				}
+			}
+			return false // re-declared: later mentions see the new variable
+		}
+		switch v := s.(type) {
+		case *ast.BlockStmt:
+			if usesFree(v.List, name) {
+				return true
+			}
+		case *ast.IfStmt:
+			var initDecl bool
+			if v.Init != nil {
+				initDecl = declares(v.Init)
+				if !initDecl && mentions(v.Init) {
+					return true
+				}
+			}
+			if !initDecl {
+				if mentions(v.Cond) || usesFree(v.Body.List, name) {
+					return true
+				}
+				if v.Else != nil && usesFree([]ast.Stmt{v.Else}, name) {
+					return true
+				}
+			}
+		default:
+			if mentions(s) {
+				return true
+			}
+		}
+	}
+	return false
+}
+
+func (x *tr) effectLet(c *ast.CallExpr) string {
+	fn, ok := x.t.Effects[x.src(c.Fun)]
+	if !ok {
+		return ""
+	}
+	tv := "fx"
+	if i := strings.Index(fn, ":="); i > 0 {
+		tv, fn = fn[:i], fn[i+2:]
+	}
+	args := []string{tv}
+	if strings.HasSuffix(fn, "!") {
+		fn = strings.TrimSuffix(fn, "!")
+	} else {
+		for _, a := range c.Args {
+			args = append(args, x.expr(a))
+		}
+	}
+	return "let " + tv + " := (" + fn + " " + strings.Join(args, " ") + ")"
+}
+
+// callLet renders `lhs.. := f(args)` for a call listed in Calls: `let (lhs, fx) := (F fx args)`.
+func (x *tr) callLet(lhs string, c *ast.CallExpr) string {
+	fn := x.t.Calls[x.src(c.Fun)]
+	args := []string{"fx"}
+	if strings.HasSuffix(fn, "!") {
+		fn = strings.TrimSuffix(fn, "!")
+	} else {
+		for _, a := range c.Args {
+			args = append(args, x.expr(a))
+		}
+	}
+	return "let (" + lhs + ", fx) := (" + fn + " " + strings.Join(args, " ") + ")"
+}
+
+func (x *tr) isCall(e ast.Expr) (*ast.CallExpr, bool) {
+	c, ok := e.(*ast.CallExpr)
+	if !ok {
+		return nil, false
+	}
+	_, ok = x.t.Calls[x.src(c.Fun)]
+	return c, ok
 }
 
 func (x *tr) panicTerm() string {
@@ -845,6 +1037,9 @@ func translate(t *target) (string, []string) {
 		recvVar = x.ident(fd.Recv.List[0].Names[0].Name)
 	}
 	x.funcRet = func(v string) string {
+		if t.RetFmt != "" {
+			return strings.ReplaceAll(t.RetFmt, "%s", v)
+		}
 		if t.RetState {
 			v = "(" + recvVar + ", " + v + ")"
 		}
@@ -860,6 +1055,9 @@ func translate(t *target) (string, []string) {
 	}
 	if t.Fall != "" {
 		fall = t.Fall
+	}
+	if t.RetFmt != "" {
+		fall = strings.ReplaceAll(t.RetFmt, "%s", "GoLib.nil")
 	}
 	if t.Partial {
 		fall = "(some " + fall + ")"
@@ -898,6 +1096,9 @@ func translate(t *target) (string, []string) {
 	name := t.Func
 	if t.Recv != "" {
 		name = t.Recv + "." + t.Func
+	}
+	if x.shadowErr != "" {
+		body = fmt.Sprintf("(translate_error %q)", x.shadowErr)
 	}
 	return fmt.Sprintf("/-- %s `%s` (%s) -/\ndef %s %s :=\n  %s\n", doc, name, t.File, t.Lean, t.Sig, body), x.errs
 }
